@@ -97,3 +97,35 @@ Example C01_matrix_example :
           [[qc 1; qc 2; qc 0]; [qc (-1); qc 0; qc (1#2)]],
           [[qc 1; qc (-1)]; [qc 2; qc 0]; [qc 0; qc (1#2)]]) = true.
 Proof. vm_compute. reflexivity. Qed.
+
+(** ** Tie to the source.  The closure pairs that scico/linop/_linop.py builds (modules
+    SVGen.C05_Linop, C05_LinopComp, C05_LinopNeg, regenerated by tools/py2coq.py on every run),
+    read at abstract complex inner-product spaces, are the combinators of LinAlg/AdjCalc.v; hence
+    every generated adj_fn is the adjoint of the generated eval_fn (and both closures are linear
+    and complex-linear) whenever the operands' are: + - scalar * and /, unary -, .T (both dtype
+    branches), .H, .conj(), gram_op, composition. *)
+From Coq Require Import List Bool Reals.
+From SV Require Import Base.Num C11.Overload LinAlg.GenSig LinAlg.Mat LinAlg.MExpr Base.InnerSpace LinAlg.AdjCalc LinAlg.Gen.
+From SVGen Require C05_Linop C05_LinopComp C05_LinopNeg.
+
+Theorem C01_gen_adjoint_closures :
+  forall (X Y Z : CSpace) (A B : Op X Y) (C : Op Y Z), @Good X Y A -> @Good X Y B -> @Good Y Z C -> @Good X Y (@to_op X Y (@C05_Linop.__add___gen (R * R) (@E (@csp X)) (@E (@csp Y)) (CLin X) (CLin Y) (@of_op X Y A) (@of_op X Y B))) /\ @Good X Y (@to_op X Y (@C05_Linop.__sub___gen (R * R) (@E (@csp X)) (@E (@csp Y)) (CLin X) (CLin Y) (@of_op X Y A) (@of_op X Y B))) /\ (forall a b : R, @Good X Y (@to_op X Y (@C05_Linop.__mul___gen (R * R) (@E (@csp X)) (@E (@csp Y)) CSc (CLin X) (CLin Y) (@of_op X Y A) (a, b))) /\ @Good X Y (@to_op X Y (@C05_Linop.__rmul___gen (R * R) (@E (@csp X)) (@E (@csp Y)) CSc (CLin X) (CLin Y) (@of_op X Y A) (a, b)))) /\ (forall a b : R, a * a + b * b <> 0 -> @Good X Y (@to_op X Y (@C05_Linop.__truediv___gen (R * R) (@E (@csp X)) (@E (@csp Y)) CSc (CLin X) (CLin Y) (@of_op X Y A) (a, b)))) /\ @Good X Y (@to_op X Y (@C05_LinopNeg.__neg___gen (R * R) (@E (@csp X)) (@E (@csp Y)) CSc (CLin X) (CLin Y) (@of_op X Y A))) /\ (forall cplx : bool, @Good Y X (@to_op Y X (@C05_Linop.T_gen (R * R) (@E (@csp X)) (@E (@csp Y)) (CLin X) (CLin Y) cplx (@of_op X Y A)))) /\ @Good Y X (@to_op Y X (@C05_Linop.H_gen (@E (@csp X)) (@E (@csp Y)) (@of_op X Y A))) /\ @Good X Y (@to_op X Y (@C05_Linop.conj_gen (R * R) (@E (@csp X)) (@E (@csp Y)) (CLin X) (CLin Y) (@of_op X Y A))) /\ @Good X X (@to_op X X (@C05_Linop.gram_op_gen (@E (@csp X)) (@E (@csp Y)) (@of_op X Y A))) /\ (forall jit : bool, @Good X Z (@to_op X Z (@C05_LinopComp.compose_gen (@E (@csp X)) (@E (@csp Y)) (@E (@csp Z)) (@of_op Y Z C) (@of_op X Y A) jit))).
+Proof. exact (@Gen.generated_closures_good). Qed.
+Print Assumptions C01_gen_adjoint_closures.
+
+(** ** Tie to the source, convolution family: the EXPLICIT adjoint closures that Convolve and
+    ConvolveByX pass to their constructor in + - scalar * / (modules SVGen.C05_Conv, C05_ConvX)
+    are, for every signature and all operands, the adjoint closures of the generic
+    LinearOperator construction (whose adjointness is C01_gen_adjoint_closures). *)
+From SV Require Import Base.Num C11.Overload LinAlg.GenSig LinAlg.GenConv.
+From SVGen Require C05_Linop C05_Conv C05_ConvX C05_Circ.
+
+Theorem C01_gen_convolve_adjoint_closures :
+  forall (Sc Hk X Y : Type) (SS : ScSig Sc) (DK : DiagSig Sc Hk) (LX : LinSig Sc X) (LY : LinSig Sc Y) (conv : Hk -> X -> Y) (A B : kop Hk X Y) (c : Sc), @k_adj Hk X Y (@C05_Conv.__add___gen Sc Hk X Y DK LX A B) = @l_adj X Y (@C05_Linop.__add___gen Sc X Y LX LY (@opk Hk X Y conv A) (@opk Hk X Y conv B)) /\ @k_adj Hk X Y (@C05_Conv.__sub___gen Sc Hk X Y DK LX A B) = @l_adj X Y (@C05_Linop.__sub___gen Sc X Y LX LY (@opk Hk X Y conv A) (@opk Hk X Y conv B)) /\ @k_adj Hk X Y (@C05_Conv.__mul___gen Sc Hk X Y SS DK LX A c) = @l_adj X Y (@C05_Linop.__mul___gen Sc X Y SS LX LY (@opk Hk X Y conv A) c) /\ @k_adj Hk X Y (@C05_Conv.__truediv___gen Sc Hk X Y SS DK LX A c) = @l_adj X Y (@C05_Linop.__truediv___gen Sc X Y SS LX LY (@opk Hk X Y conv A) c).
+Proof. exact (@GenConv.conv_adjoint_closures_are_generic). Qed.
+Print Assumptions C01_gen_convolve_adjoint_closures.
+
+Theorem C01_gen_convolve_by_x_adjoint_closures :
+  forall (Sc Hk X Y : Type) (SS : ScSig Sc) (DK : DiagSig Sc Hk) (LX : LinSig Sc X) (LY : LinSig Sc Y) (conv : Hk -> X -> Y) (A B : kop Hk X Y) (c : Sc), @k_adj Hk X Y (@C05_ConvX.__add___gen Sc Hk X Y DK LX A B) = @l_adj X Y (@C05_Linop.__add___gen Sc X Y LX LY (@opk Hk X Y conv A) (@opk Hk X Y conv B)) /\ @k_adj Hk X Y (@C05_ConvX.__sub___gen Sc Hk X Y DK LX A B) = @l_adj X Y (@C05_Linop.__sub___gen Sc X Y LX LY (@opk Hk X Y conv A) (@opk Hk X Y conv B)) /\ @k_adj Hk X Y (@C05_ConvX.__mul___gen Sc Hk X Y SS DK LX A c) = @l_adj X Y (@C05_Linop.__mul___gen Sc X Y SS LX LY (@opk Hk X Y conv A) c) /\ @k_adj Hk X Y (@C05_ConvX.__truediv___gen Sc Hk X Y SS DK LX A c) = @l_adj X Y (@C05_Linop.__truediv___gen Sc X Y SS LX LY (@opk Hk X Y conv A) c).
+Proof. exact (@GenConv.convx_adjoint_closures_are_generic). Qed.
+Print Assumptions C01_gen_convolve_by_x_adjoint_closures.
